@@ -594,7 +594,9 @@ impl Model {
             "EXPIRE" | "PEXPIRE" => {
                 if *actual == R::Int(1) {
                     let t = strict_i64(&a[2]).unwrap();
-                    if t <= 0 { self.dbs[db].map.remove(&a[1]); } else {
+                    // a zero/negative TTL puts the deadline at this very instant: the key is gone as soon as the
+                    // clock moves; whether it is still visible at the same clock reading is a don't-care
+                    if t <= 0 { if let Some(e) = self.dbs[db].map.get_mut(&a[1]) { e.deadline = Some(now); } } else {
                         let ns = if name == "EXPIRE" { (t as u64).saturating_mul(1_000_000_000) } else { (t as u64).saturating_mul(1_000_000) };
                         if let Some(e) = self.dbs[db].map.get_mut(&a[1]) { e.deadline = Some(now.saturating_add(ns)); }
                     }
